@@ -12,6 +12,7 @@ Nothing here edits shared files; asn1c and the skeletons come from vlib.REPO."""
 import bisect, os, re, subprocess
 from vlib import *
 import modgen, widegen
+import c19_zoo as ZOO
 
 # ---------------------------------------------------------------------------
 # hand-made modules: every constructed kind, members with and without constraints of
@@ -92,16 +93,23 @@ VARIANTS = [
     # (tag, asn1c options, extra cflags for skeletons AND generated code, tiers, regex of skeleton files left out)
     ("native", ("-fcompound-names",), (), ("quick", "thorough"), None),
     ("wide-indirect", ("-fcompound-names", "-fwide-types", "-findirect-choice"), (), ("quick", "thorough"), None),
-    # "-fno-constraints" is not a variant: for a member with a subtype constraint the unchanged asn1c then emits a member table
-    # that refers to asn_PER_memb_*/asn_OER_memb_* records it no longer declares (uncompilable; a code-generation matter, not C19)
+    # "-fno-constraints" is not a variant: buildable since /repo commit bfcde1e, but a type that is a reference to another one
+    # (`Tagged ::= [APPLICATION 3] EXPLICIT Inner`) then gets `{ 0, 0, 0 }` encoding constraints and asn_check_constraints() calls
+    # the NULL checker (SIGSEGV on 60 of 221 types; a code-generation matter, passed on, not C19)
+    # unnamed unions change the layout of every CHOICE structure
+    ("unnamed-unions", ("-fcompound-names", "-funnamed-unions"), (), ("thorough",), None),
     # the last field: skeleton sources asn1c leaves out with that option (they do not compile with the matching -D)
     ("nooer", ("-fcompound-names", "-no-gen-OER"), ("-DASN_DISABLE_OER_SUPPORT",), ("thorough",), r"(^oer_|_oer\.c$)"),
     ("noper", ("-fcompound-names", "-no-gen-PER"), ("-DASN_DISABLE_PER_SUPPORT",), ("thorough",), None),
 ]
 
+COV_VARIANTS = ("native", "wide-indirect")     # same preprocessor flags: their gcov counters can be merged branch by branch
 SKEL_EXCLUDE_C19 = {"converter-example.c"}
 RO_CFLAGS = ["-std=gnu99", "-w", "-O1", "-g", "-fPIC", "-finstrument-functions", "-DASN_PDU_COLLECTION"]
 THR_CFLAGS = ["-std=gnu99", "-w", "-O1", "-g", "-fsanitize=thread", "-DASN_PDU_COLLECTION"]
+# the gcov build: the same battery with the image left writable (the counters live in .bss); -O0 so that every source-level
+# branch is a branch of the object code
+COV_CFLAGS = ["-std=gnu99", "-w", "-O0", "-g", "--coverage", "-DASN_PDU_COLLECTION"]
 TSAN_ENV = dict(os.environ, TSAN_OPTIONS="exitcode=66:halt_on_error=0:second_deadlock_stack=1:report_signal_unsafe=0:suppressions=" +
                 os.path.join(HARNESS, "c19_tsan.supp"))
 
@@ -115,8 +123,11 @@ CANARY_SYMS = ("c19_canary_data", "c19_canary_bss", "c19_canary_same")
 
 
 def modules_for(rng, tier):
-    """-> list of (module dict, [type names], {type: [DER hex seeds]})"""
-    mods = [({"name": "C19K", "text": K0}, K0_TYPES, K0_SEEDS), ({"name": "C19X", "text": K1}, K1_TYPES, K1_SEEDS)]
+    """-> list of (module dict, [type names], {type: [DER hex seeds]}); a module dict may carry "peers" (see c19_zoo.Z0_PEERS)"""
+    mods = [({"name": "C19K", "text": K0}, K0_TYPES, dict(K0_SEEDS, **ZOO.K0_MORE_SEEDS)), ({"name": "C19X", "text": K1}, K1_TYPES, K1_SEEDS),
+            ({"name": "C19Z", "text": ZOO.Z0, "peers": ZOO.Z0_PEERS}, ZOO.Z0_TYPES, ZOO.Z0_SEEDS),
+            # no ASN.1 text: built-in descriptors of the skeletons named so that they can be given hand-made values
+            ({"name": "builtin", "text": None}, sorted(ZOO.BUILTIN_SEEDS), ZOO.BUILTIN_SEEDS)]
     g = modgen.Gen(rng).module("C19G", 6 if tier == "quick" else 10)
     mods.append((g, [n for n, _ in g["defs"]], {}))
     return mods
@@ -125,27 +136,36 @@ def modules_for(rng, tier):
 def write_pdu_table(outdir, mods):
     with open(os.path.join(outdir, "pdu_table.c"), "w") as f:
         f.write("#include <asn_application.h>\n")
-        for _, names, seeds in mods:
+        for m, names, seeds in mods:
             for n in names:
                 f.write("extern asn_TYPE_descriptor_t asn_DEF_%s;\n" % n)
             for n, hs in seeds.items():
                 f.write("static const char *const seeds_%s[] = {%s, 0};\n" % (n, ", ".join('"%s"' % h for h in hs)))
-        f.write("struct pdu_ent { const char *name; asn_TYPE_descriptor_t *td; const char *const *seeds; };\n")
+            # peers: {dst: [src...]} (encodings of src are also decoded as dst) -> per source type the list of destinations
+            fwd = {}
+            for dst, srcs in (m.get("peers") or {}).items():
+                for src in srcs:
+                    fwd.setdefault(src, []).append(dst)
+            m["_decode_as"] = fwd
+            for n, ds in fwd.items():
+                f.write("static const char *const decode_as_%s[] = {%s, 0};\n" % (n, ", ".join('"%s"' % d for d in ds)))
+        f.write("struct pdu_ent { const char *name; asn_TYPE_descriptor_t *td; const char *const *seeds; const char *const *decode_as; };\n")
         f.write("struct pdu_ent pdu_table[] = {\n")
-        for _, names, seeds in mods:
+        for m, names, seeds in mods:
             for n in names:
-                f.write('  {"%s", &asn_DEF_%s, %s},\n' % (n, n, ("seeds_" + n) if n in seeds else "0"))
-        f.write("  {0, 0, 0}\n};\n")
+                f.write('  {"%s", &asn_DEF_%s, %s, %s},\n' % (n, n, ("seeds_" + n) if n in seeds else "0", ("decode_as_" + n) if n in m["_decode_as"] else "0"))
+        f.write("  {0, 0, 0, 0}\n};\n")
 
 
-def build_variant(asn1c, skel, root, tag, opts, xcflags, mods, skip_rx=None):
-    """generate + compile one variant in both builds.  -> dict(dir, ro_exe, lib, thr_exe, nfiles) ; raises BuildError"""
+def build_variant(asn1c, skel, root, tag, opts, xcflags, mods, skip_rx=None, cov=False):
+    """generate + compile one variant in both builds (+ a gcov build, `cov`).  -> dict(dir, ro_exe, lib, thr_exe, nfiles) ; raises BuildError"""
     d = os.path.join(root, tag)
     gen = os.path.join(d, "gen")
     os.makedirs(gen, exist_ok=True)
     for m, _, _ in mods:
-        open(os.path.join(gen, m["name"] + ".asn1"), "w").write(m["text"])
-    cmd = [asn1c, "-S", skel, "-R"] + list(opts) + [m["name"] + ".asn1" for m, _, _ in mods]
+        if m["text"] is not None:
+            open(os.path.join(gen, m["name"] + ".asn1"), "w").write(m["text"])
+    cmd = [asn1c, "-S", skel, "-R"] + list(opts) + [m["name"] + ".asn1" for m, _, _ in mods if m["text"] is not None]
     p = subprocess.run(cmd, cwd=gen, stdout=subprocess.PIPE, stderr=subprocess.STDOUT, text=True, errors="replace", timeout=120)
     if p.returncode != 0:
         raise BuildError("asn1c %s failed:\n%s" % (" ".join(opts), p.stdout[-2000:]))
@@ -156,7 +176,13 @@ def build_variant(asn1c, skel, root, tag, opts, xcflags, mods, skip_rx=None):
     ssrcs = sorted(f for f in os.listdir(sk) if f.endswith(".c") and f not in SKEL_EXCLUDE_C19 and not (skip_rx and re.search(skip_rx, f)))
     inc = "-I%s -I%s" % (gen, sk)
     mk = ["CC=gcc", "XC=" + " ".join(xcflags), "RO=%s $(XC) %s" % (" ".join(RO_CFLAGS), inc), "TH=%s $(XC) %s" % (" ".join(THR_CFLAGS), inc),
-          "DRV=" + os.path.join(HARNESS, "c19drv.c"), "all: ro/c19drv th/c19drv"]
+          "CV=%s $(XC) %s" % (" ".join(COV_CFLAGS), inc),
+          "DRV=" + os.path.join(HARNESS, "c19drv.c"), "all: ro/c19drv th/c19drv" + (" cov/c19drv" if cov else "")]
+    cv_objs = ["cov/g_%s.o" % s[:-2] for s in gsrcs] + ["cov/s_%s.o" % s[:-2] for s in ssrcs]
+    mk.append("cov/g_%.o: gen/%.c\n\t@$(CC) $(CV) -c $< -o $@")
+    mk.append("cov/s_%%.o: %s/%%.c\n\t@$(CC) $(CV) -c $< -o $@" % sk)
+    mk.append("cov/c19drv: $(DRV) %s\n\t@$(CC) -std=gnu99 -w -O1 -g $(XC) %s $(DRV) %s --coverage -lpthread -lm -o $@" % (" ".join(cv_objs), inc, " ".join(cv_objs)))
+    os.makedirs(os.path.join(d, "cov"), exist_ok=True)
     ro_objs = ["ro/g_%s.o" % s[:-2] for s in gsrcs] + ["ro/s_%s.o" % s[:-2] for s in ssrcs]
     th_objs = ["th/g_%s.o" % s[:-2] for s in gsrcs] + ["th/s_%s.o" % s[:-2] for s in ssrcs]
     mk.append("ro/g_%.o: gen/%.c\n\t@$(CC) $(RO) -c $< -o $@")
@@ -175,7 +201,7 @@ def build_variant(asn1c, skel, root, tag, opts, xcflags, mods, skip_rx=None):
     if rc != 0:
         raise BuildError("c19 variant %s build failed:\n%s" % (tag, out[-3000:]))
     return {"tag": tag, "dir": d, "ro_exe": os.path.join(d, "ro", "c19drv"), "lib": os.path.join(d, "ro", "libc19mod.so"),
-            "thr_exe": os.path.join(d, "th", "c19drv"), "nfiles": len(gsrcs) + len(ssrcs), "opts": list(opts) + list(xcflags)}
+            "thr_exe": os.path.join(d, "th", "c19drv"), "cov_exe": os.path.join(d, "cov", "c19drv") if cov else None, "nfiles": len(gsrcs) + len(ssrcs), "opts": list(opts) + list(xcflags)}
 
 
 # ---------------------------------------------------------------------------
@@ -251,7 +277,8 @@ def run_ro(v, seed, iters, timeout=600):
     """-> dict(stores=[...], diffs=[...], crashes=[...], funcs_seen, funcs_all, summary, selftest_ok, rc, raw_tail)"""
     st = Symtab(v["lib"])
     rc, out = sh([v["ro_exe"], "ro", str(seed), str(iters)], timeout=timeout)
-    res = {"stores": [], "diffs": [], "crashes": [], "summary": "", "rc": rc, "raw_tail": out[-1500:], "segments": []}
+    res = {"stores": [], "diffs": [], "crashes": [], "summary": "", "rc": rc, "raw_tail": out[-1500:], "segments": [],
+           "parts": None, "parts_outside": [], "values": {}, "closure": {}, "closure_bad": [], "probes": [], "ops": {}}
     seen = set()
     canary_store, canary_diff = set(), set()
     for line in out.split("\n"):
@@ -284,8 +311,38 @@ def run_ro(v, seed, iters, timeout=600):
             seen.add(int(line.split()[1], 16))
         elif line.startswith("SEG "):
             res["segments"].append(line[4:])
+        elif line.startswith("PARTS "):
+            res["parts"] = {k: int(x) for k, x in (kv.split("=") for kv in line.split()[1:])}
+        elif line.startswith("OPS "):
+            f = line.split(" ", 2)
+            res["ops"][f[2]] = res["ops"].get(f[2], 0) + int(f[1])
+        elif line.startswith("PROBE "):
+            m = re.match(r"PROBE (\S+) type=(.*) op=(\S+) (?:sig=(\d+)|survived rc=(-?\d+))$", line)
+            if m:
+                res["probes"].append({"probe": m.group(1), "type": m.group(2), "op": m.group(3), "sig": int(m.group(4)) if m.group(4) else None,
+                                      "rc": int(m.group(5)) if m.group(5) else None})
+        elif line.startswith("CLOSURE "):
+            kv = dict(x.split("=", 1) for x in line.split()[1:])
+            res["closure"][kv["when"]] = {"words_pointing_into_library": int(kv["words_pointing_into_library"]),
+                                          "words_pointing_to_writable_memory_outside(raw, dynamic linker slots included)": int(kv["words_pointing_to_writable_memory_outside"])}
+        elif line.startswith("PTRX "):
+            kv = dict(x.split("=", 1) for x in line.split()[1:])
+            off = int(kv["off"], 16)
+            sec = st.section_of(off)
+            if sec.startswith(".got"):      # GLOB_DAT slots of stdout/stderr etc.: the dynamic linker's, not a table of the library
+                res["closure"].setdefault("got_slots_ignored", set()).add(off)
+                continue
+            sym, inner = st.data_sym(off)
+            res["closure_bad"].append({"when": kv["when"], "symbol": sym, "offset_in_symbol": inner, "section": sec, "points_into": kv["target"]})
+        elif line.startswith("PARTX "):
+            res["parts_outside"].append(line[6:])
+        elif line.startswith("VAL "):
+            f = line.split(" ", 3)
+            res["values"][f[3]] = (int(f[1]), int(f[2]))
         elif line.startswith("RO "):
             res["summary"] = line
+    if "got_slots_ignored" in res["closure"]:
+        res["closure"]["got_slots_ignored"] = len(res["closure"]["got_slots_ignored"])
     allf = st.functions()
     res["funcs_all"] = len([n for n in allf.values() if n not in RUNTIME_FUNCS])
     miss = sorted((a, n) for a, n in allf.items() if a not in seen and n not in RUNTIME_FUNCS)
@@ -334,3 +391,155 @@ def list_types(v):
             kv = dict(x.split("=") for x in m.group(3).split())
             ts.append(dict(name=m.group(1), elements=int(m.group(2)), **{k: int(x) for k, x in kv.items()}))
     return ts
+
+
+def run_cov(v, seed, iters, timeout=900):
+    """runs the ro battery in the gcov build and reads the counters of every skeleton source.
+    -> dict(summary, functions, functions_never_executed=[...], lines, lines_never_executed, branches, branches_never_taken,
+            per_file={file: {...}}, untaken_by_function={"file:function": n})"""
+    import json
+    d = os.path.join(v["dir"], "cov")
+    for f in os.listdir(d):
+        if f.endswith(".gcda"):
+            os.unlink(os.path.join(d, f))
+    rc, out = sh([v["cov_exe"], "cov", str(seed), str(iters)], cwd=v["dir"], timeout=timeout)
+    res = {"rc": rc, "summary": next((l for l in out.split("\n") if l.startswith("RO ")), ""), "per_file": {}, "functions_never_executed": [],
+           "untaken_by_function": {}, "untaken_lines": {}, "raw": {"fn": {}, "ln": {}, "br": {}}}
+    raw = res["raw"]
+    tot = {"functions": 0, "functions_executed": 0, "lines": 0, "lines_executed": 0, "branches": 0, "branches_taken": 0}
+    gcdas = sorted(f for f in os.listdir(d) if f.startswith("s_") and f.endswith(".gcda"))
+    if not gcdas:
+        res["error"] = "no .gcda written: " + out[-500:]
+        return res
+    rc2, js = sh("gcov -b -c -j -t " + " ".join(gcdas), cwd=d, timeout=timeout)
+    skdir = os.path.join(REPO, "skeletons")
+    for line in js.split("\n"):
+        line = line.strip()
+        if not line.startswith("{"):
+            continue
+        try:
+            j = json.loads(line)
+        except ValueError:
+            continue
+        for fl in j.get("files", []):
+            fn = fl["file"]
+            if not fn.endswith(".c") or os.path.dirname(os.path.abspath(os.path.join(d, fn))) != os.path.abspath(skdir):
+                continue       # headers (inline helpers) are counted with the .c that includes them only once below; generated code is left out
+            base = os.path.basename(fn)
+            pf = res["per_file"].setdefault(base, {"functions": 0, "functions_executed": 0, "lines": 0, "lines_executed": 0, "branches": 0, "branches_taken": 0})
+            for f in fl.get("functions", []):
+                pf["functions"] += 1
+                raw["fn"][(base, f["name"])] = raw["fn"].get((base, f["name"]), 0) + f.get("execution_count", 0)
+                if f.get("execution_count", 0) > 0:
+                    pf["functions_executed"] += 1
+                else:
+                    res["functions_never_executed"].append("%s (%s)" % (f["name"], base))
+            for ln in fl.get("lines", []):
+                pf["lines"] += 1
+                pf["lines_executed"] += 1 if ln.get("count", 0) > 0 else 0
+                raw["ln"][(base, ln["line_number"])] = raw["ln"].get((base, ln["line_number"]), 0) + ln.get("count", 0)
+                for bi, b in enumerate(ln.get("branches", [])):
+                    if b.get("throw"):
+                        continue
+                    raw["br"][(base, ln.get("function_name", "?"), ln["line_number"], bi)] = raw["br"].get((base, ln.get("function_name", "?"), ln["line_number"], bi), 0) + b.get("count", 0)
+                    pf["branches"] += 1
+                    if b.get("count", 0) > 0:
+                        pf["branches_taken"] += 1
+                    else:
+                        k = "%s:%s" % (base, ln.get("function_name", "?"))
+                        res["untaken_by_function"][k] = res["untaken_by_function"].get(k, 0) + 1
+                        res["untaken_lines"].setdefault(base, set()).add(ln["line_number"])
+    for pf in res["per_file"].values():
+        for k in tot:
+            tot[k] += pf[k]
+    res.update(tot)
+    res["functions_never_executed"].sort()
+    res["branches_never_taken"] = tot["branches"] - tot["branches_taken"]
+    res["lines_never_executed"] = tot["lines"] - tot["lines_executed"]
+    res["untaken_lines"] = {k: sorted(x) for k, x in res["untaken_lines"].items()}
+    return res
+
+
+def shape_sides(v):
+    """runs `c19drv shapes` -> {key: {side: [type names with a value source]}} for one built variant"""
+    rc, out = sh([v["ro_exe"], "shapes"], timeout=60)
+    res = {}
+    for line in out.split("\n"):
+        if not line.startswith("SHAPE "):
+            continue
+        m = re.match(r"SHAPE (.*?) src=(\S+)(.*)$", line)
+        if not m or m.group(2) not in ("fill", "seeds", "parent"):
+            continue
+        for kv in m.group(3).split():
+            k, _, val = kv.partition("=")
+            for side in val.split(","):
+                res.setdefault(k, {}).setdefault(side, []).append(m.group(1))
+    return res
+
+
+def shape_report(per_variant):
+    """per_variant: {tag: shape_sides(...)} -> dict(keys, sides_expected, sides_seen, missing=[...], unreachable=[...], unknown=[...], table={key: {side: n types}})
+    against the decision list c19_zoo.SHAPES"""
+    seen = {}
+    for tag, ss in per_variant.items():
+        for k, sides in ss.items():
+            for side, ts in sides.items():
+                seen.setdefault(k, {}).setdefault(side, set()).update("%s:%s" % (tag, t) for t in ts)
+    missing, unreachable, table, nexp, nseen = [], [], {}, 0, 0
+    known = {}
+    for key, sides, where, impossible in ZOO.SHAPES:
+        known[key] = sides
+        table[key] = {}
+        for side in sides:
+            n = len(seen.get(key, {}).get(side, ()))
+            table[key][side] = n
+            if side in impossible:
+                unreachable.append({"key": key, "side": side, "why": impossible[side], "where": where})
+                continue
+            nexp += 1
+            if n:
+                nseen += 1
+            else:
+                missing.append({"key": key, "side": side, "meaning": sides[side], "where": where})
+    unknown = sorted("%s=%s" % (k, s) for k, sides in seen.items() for s in sides if s not in known.get(k, {}))
+    return {"keys": len(ZOO.SHAPES), "sides_expected": nexp, "sides_seen": nseen, "missing": missing, "unreachable_by_generated_code": unreachable,
+            "unknown": unknown, "types_per_side": table}
+
+
+def merge_cov(covs):
+    """covs: {variant tag: run_cov(...)} of builds with the same preprocessor flags -> one report: a function / line / branch counts as
+    exercised when any variant exercised it.  The raw counters are dropped; what stays is small enough for the evidence file."""
+    fn, ln, br = {}, {}, {}
+    for cv in covs.values():
+        for k, n in cv["raw"]["fn"].items():
+            fn[k] = fn.get(k, 0) + n
+        for k, n in cv["raw"]["ln"].items():
+            ln[k] = ln.get(k, 0) + n
+        for k, n in cv["raw"]["br"].items():
+            br[k] = br.get(k, 0) + n
+    per_file, by_fn = {}, {}
+    for (f, name), n in fn.items():
+        pf = per_file.setdefault(f, {"functions": 0, "functions_executed": 0, "lines": 0, "lines_executed": 0, "branches": 0, "branches_taken": 0})
+        pf["functions"] += 1
+        pf["functions_executed"] += 1 if n else 0
+    for (f, l), n in ln.items():
+        pf = per_file.setdefault(f, {"functions": 0, "functions_executed": 0, "lines": 0, "lines_executed": 0, "branches": 0, "branches_taken": 0})
+        pf["lines"] += 1
+        pf["lines_executed"] += 1 if n else 0
+    for (f, name, l, bi), n in br.items():
+        pf = per_file[f]
+        pf["branches"] += 1
+        if n:
+            pf["branches_taken"] += 1
+        else:
+            by_fn["%s:%s" % (f, name)] = by_fn.get("%s:%s" % (f, name), 0) + 1
+    tot = {k: sum(pf[k] for pf in per_file.values()) for k in ("functions", "functions_executed", "lines", "lines_executed", "branches", "branches_taken")}
+    out = {"build": "gcc -O0 --coverage, skeletons/*.c only, the read-only battery (`c19drv cov`, image left writable), variants merged: " + ", ".join(sorted(covs)),
+           "runs": {t: cv["summary"] for t, cv in covs.items()}, "errors": {t: cv["error"] for t, cv in covs.items() if cv.get("error")}}
+    out.update(tot)
+    out["functions_never_executed"] = sorted("%s (%s)" % (name, f) for (f, name), n in fn.items() if not n)
+    out["lines_never_executed"] = tot["lines"] - tot["lines_executed"]
+    out["branches_never_taken"] = tot["branches"] - tot["branches_taken"]
+    out["branches_never_taken_by_function(top 60)"] = dict(sorted(by_fn.items(), key=lambda x: -x[1])[:60])
+    out["per_file"] = {f: per_file[f] for f in sorted(per_file)}
+    return out
